@@ -1,6 +1,9 @@
 import CTV.Lemmas.DerLax
 import CTV.Lemmas.DerTotal
 import CTV.Lemmas.DerHeader
+import CTV.Gen.Asn1Lax
+import CTV.Lemmas.DerMarshal
+import CTV.Lemmas.DerCanonStrict
 /-!
 # C10 — The ASN.1 fork is as strict as upstream; lax mode only adds acceptances
 
@@ -53,6 +56,14 @@ example : parseField ⟨true, true, true, true⟩ .strict .str {} [0x13, 0x02, 0
 example : ∃ e, parseField ⟨true, true, true, true⟩ .lax .str {} [0x13, 0x03, 0x41, 0x00, 0x23] = .error e := ⟨_, rfl⟩
 
 
+/-- **the places where the fork reads `lax`, regenerated.** In asn1.go the flag occurs in a branch condition in exactly
+`checkInteger`, `parseObjectIdentifier` and `parsePrintableString` (the three relaxations the model has); every call of a
+function with a `lax` parameter passes `lax` / `params.lax` on unchanged; struct fields and slice elements inherit it.
+A fourth relaxation, or a call that passes a literal, changes the regenerated lists and this `decide` fails. -/
+theorem lax_sites_regenerated :
+    Gen.laxSites = ["checkInteger", "parseObjectIdentifier", "parsePrintableString"] ∧
+    Gen.laxNotHandedDown = [] ∧ Gen.laxInherited = true := by decide
+
 /-! ## lax propagates to every nested field and element
 
 The flag is a parameter of the whole recursion: a struct's fields, a slice's elements, the element under an
@@ -70,7 +81,8 @@ theorem lax_propagates_struct (d : Dialect) (m : Mode) (raw : Bool) (fs : AField
     parseField d m (.struct raw fs) p bs = .ok (.struct (if raw then some consumed else none) vs, rest) := by
   have hd : d.forMode m = d := by unfold Dialect.forMode; simp [hm]
   have ha : (ATy.struct raw fs).isAny = false := rfl
-  simp only [parseField, fieldShell, hb, if_false, ha, hd, hh, hm, Bool.false_and, Bool.false_eq_true, hf]
+  have hu : m.under raw = m := by cases m <;> first | rfl | (cases raw <;> rfl) | cases hm
+  simp only [parseField, fieldShell, hb, if_false, ha, hd, hh, hm, hu, Bool.false_and, Bool.false_eq_true, hf]
 
 /-- slice elements inherit the mode -/
 theorem lax_propagates_seqOf (d : Dialect) (m : Mode) (s : Bool) (e : ATy) (p : FP) (bs : Bytes)
@@ -112,6 +124,15 @@ theorem parse_total (d : Dialect) (m : Mode) (t : ATy) (p : FP) (bs : Bytes) (v 
     ∃ pre, bs = pre ++ rest ∧ (2 ≤ pre.length ∨ (p.optional = true ∧ pre = [])) :=
   parseField_shrinks d m t p bs v rest h
 
+/-- **parse_total (slices in range).** The content slice `parseField` takes (`bytes[offset : offset+t.length]`) has exactly the
+declared length: the `take` of the model never truncates, so the Go slice expression is in range on every accepted header,
+through explicit tags as well. (This is the part of "no panic" the model can express; that the real code does not fault
+elsewhere — reflection, nil targets — is checked by the harness only: a panic is an output class there.) -/
+theorem parse_total_in_range (d : Dialect) (t : ATy) (p : FP) (bs : Bytes) (tl : TL) (utag : Nat) (inner rest consumed : Bytes)
+    (outer : Option (Nat × Nat)) (h : header d t p bs = .ok (.body tl utag inner rest consumed outer)) :
+    inner.length = tl.len ∧ bs = consumed ++ rest :=
+  ⟨header_inner_length d t p bs tl utag inner rest consumed outer h, (header_consumed d t p bs tl utag inner rest consumed outer h).1⟩
+
 /-- the two fuel-bounded loops of the model (`parseSequenceOf`'s counting pass, `parseObjectIdentifier`'s arc
 loop) are started with `length + 1` fuel and never exhaust it: the `fuel` error is unreachable. -/
 theorem parse_total_fuel (d : Dialect) (u : Bool × Nat × Bool) (bs : Bytes) :
@@ -138,6 +159,8 @@ length = inner element; empty Flag content; parameter combinations for which `ma
 `canon` mode for every dialect and in `strict` mode once `base128RejectsLeading80` holds (it does since the F11a fix) — is byte for
 byte what `appendTagAndLength` writes for the fields that were read: identifier octets (short and high-tag-number form), length
 octets (short form, long form with minimal big-endian digits), for every class, tag number < 2^31 and length < 2^31. -/
+example : Dialect.fork.b128min = true := rfl   -- the hypothesis below holds for the fork as the working tree has it (since the F11a fix)
+
 theorem marshal_parse_header (d : Dialect) (hd : d.b128min = true) (bs : Bytes) (tl : TL) (r : Bytes)
     (h : parseTagLen d bs = .ok (tl, r)) : bs = encTagLen tl ++ r :=
   parseTagLen_roundtrip d hd bs tl r h
@@ -162,15 +185,63 @@ theorem marshal_parse_element (d : Dialect) (hd : d.b128min = true) (bs : Bytes)
 example : parseTagLen Dialect.upstream [0xbf, 0x87, 0x68, 0x82, 0x01, 0x00, 0xAA] = .ok (⟨2, 1000, 256, true⟩, [0xAA]) ∧
     encTagLen ⟨2, 1000, 256, true⟩ = [0xbf, 0x87, 0x68, 0x82, 0x01, 0x00] := ⟨rfl, rfl⟩
 
-/- FULL: marshal_parse —
-     parseField d .canon t p bs = .ok (v, rest) → ∃ enc, marshalField d t p v = .ok enc ∧ bs = enc ++ rest
-   for every `t p bs d`. Proved so far: the header part above (`marshal_parse_header`, `marshal_parse_element`, with the length and
-   base-128 round trips in `CTV/Lemmas/DerHeader.lean`). Missing: the content round trips of INTEGER (`intBytes (intOfBytes c) = c`
-   for minimal `c`) and OBJECT IDENTIFIER, the case analysis matching `makeField`'s class/tag choice with `parseField`'s expectation
-   under `canonParams`, and the recursion through struct fields / slice elements (the two passes of `parseSequenceOf` tile the
-   content). Until then the clause is checked by evaluation on every accepted input of every run: `ctvmodel C10` computes the
-   Canon recogniser and the model's `marshalField` and answers `MODEL-CANON-BROKEN` if a canon-accepted input does not re-marshal to
-   the consumed octets (never, over 3 M lines per thorough run), and the model's re-marshalled octets are compared with Go's. -/
+/-- **marshal_parse.** For every target type (all kinds of `ATy` incl. `time.Time`, structs with and without RawContent, slices,
+nested to any depth), every field-parameter record, every dialect and every input: if the input is accepted in `canon` mode — strict DER
+in the form `Marshal` itself produces for the type — then marshalling the decoded value gives back exactly the octets that were
+consumed, and what was not consumed is the remainder. (`Canon` has no `interface{}` targets: for those the premise is never true.)
+
+That `canon` mode accepts exactly the inputs on which the real `Marshal(Unmarshal(x))` reproduces `x` is checked against the fork on
+every run (the `c` lines of the harness: 0 disagreements over 10⁴ quick / 10⁶ thorough inputs). -/
+theorem marshal_parse (d : Dialect) (t : ATy) (p : FP) (bs : Bytes) (v : AVal) (rest : Bytes)
+    (h : parseField d .canon t p bs = .ok (v, rest)) :
+    ∃ enc, marshalField d t p v = .ok enc ∧ bs = enc ++ rest :=
+  marshal_parse_field d t p bs v rest h
+
+/-- content round trips of the primitive kinds, as corollaries used above (each for every accepted content) -/
+theorem marshal_parse_primitives :
+    (∀ c b, parseBool c = .ok b → encBool b = c) ∧
+    (∀ c i, parseInt64 false c = .ok i → intBytes i = c) ∧ (∀ c i, parseInt32 false c = .ok i → intBytes i = c) ∧
+    (∀ c i, parseBigInt false c = .ok i → intBytes i = c) ∧
+    (∀ c b, parseBitString c = .ok b → encBitString b = c) ∧
+    (∀ (d : Dialect), d.b128min = true → ∀ c arcs, parseOID d false c = .ok arcs → encOID arcs = .ok c) :=
+  ⟨parseBool_roundtrip, parseInt64_roundtrip, parseInt32_roundtrip, parseBigInt_roundtrip, parseBitString_roundtrip,
+   fun d hd c arcs h => parseOID_roundtrip d hd c arcs h⟩
+
+/-- **canon ⊆ strict.** `Canon` only adds tests to `strict` (and switches the base-128 minimality test on): whatever `canon` accepts,
+`Unmarshal` accepts with the same value and the same remainder, in every dialect. So `marshal_parse` is a statement about inputs the
+strict decoder accepts, decoded to the value the strict decoder gives. -/
+theorem canon_sub_strict (d : Dialect) (t : ATy) (p : FP) (bs : Bytes) (v : AVal) (rest : Bytes)
+    (h : parseField d .canon t p bs = .ok (v, rest)) : parseField d .strict t p bs = .ok (v, rest) :=
+  parseField_canon_strict d t p bs _ h
+
+/-- **INTEGER of any length.** Minimal two's-complement content octets of any length (what `checkInteger` accepts strictly; `*big.Int`
+targets have no size limit) are what the encoder writes for the decoded value — in particular negative values whose content starts
+`ff 00 …`, `80 00 …`, `ff 7f …`. -/
+theorem marshal_parse_integer (c : Bytes) (h : checkInteger false c = .ok ()) : intBytes (intOfBytes c) = c :=
+  intBytes_intOfBytes c h
+
+example : checkInteger false [0xff, 0x00, 0x01] = .ok () ∧ intOfBytes [0xff, 0x00, 0x01] = -65535 := ⟨rfl, by decide⟩
+
+/-- **`makeBigInt` as the working tree has it** (statement by statement, regenerated): for n < 0 invert the octets of −n−1 and put `ff` in
+front when the top bit is clear; 0 is one zero octet; for n > 0 the magnitude with `00` in front when the top bit is set. This is the
+algorithm whose output `intBytes` (minimal two's complement) models and against which it is compared on every run; any rewrite of the
+function changes these lists and this `decide` fails. (The equality of this algorithm with `intBytes` is tied by correspondence, not proved.) -/
+theorem makeBigInt_regenerated :
+    Gen.makeBigIntNegative =
+      ["nMinus1 := new(big.Int).Neg(n)", "nMinus1.Sub(nMinus1, bigOne)", "bytes := nMinus1.Bytes()",
+       "for i := range bytes { bytes[i] ^= 0xff }",
+       "if len(bytes) == 0 || bytes[0]&0x80 == 0 { return multiEncoder([]encoder{byteFFEncoder, bytesEncoder(bytes)}), nil }",
+       "return bytesEncoder(bytes), nil"] ∧
+    Gen.makeBigIntZeroPositive =
+      ["return byte00Encoder, nil", "bytes := n.Bytes()",
+       "if len(bytes) > 0 && bytes[0]&0x80 != 0 { return multiEncoder([]encoder{byte00Encoder, bytesEncoder(bytes)}), nil }",
+       "return bytesEncoder(bytes), nil"] := by decide
+
+/- FULL (still open, the converse direction): parse_marshal —
+     WfVal t p v → marshalField d t p v = .ok b → parseField d .canon t p (b ++ rest) = .ok (v, rest)
+   i.e. `Canon` contains everything `Marshal` writes (non-vacuity of `Canon` independent of the parser). Not proved; what stands in
+   for it: the `c` lines of the harness (the implementation's Marshal∘Unmarshal is exact ⇔ the model's `canon` accepts; about half of
+   all generated inputs are canon-accepted), and the instance below. -/
 
 -- an instance: strict DER for a struct with an optional defaulted field, an explicit tag and a SET OF; Canon accepts, marshal reproduces
 example :
